@@ -33,6 +33,32 @@ type Spec struct {
 	DupInto int `json:"dup_into"`
 	// MissingIn: b.proto of this module additionally imports a path nobody provides; -1 = none.
 	MissingIn int `json:"missing_in"`
+	// Layout of the local modules:
+	//   ""      one directory m<i> per module
+	//   "incl"  (v2) all modules share the directory proto and select their files with includes: [proto/p<i>]
+	//   "excl"  (v2) all modules share the directory proto and drop the other modules' files with excludes
+	//   "roots" (v1) v1beta1 modules with two roots: m<i>/ra holds a.proto, m<i>/rb holds b.proto
+	Layout string `json:"layout,omitempty"`
+
+	// ids are the observed OpaqueIDs of the unnamed local modules in the shared-directory layouts,
+	// where a module is identified by its content (see resolveIDs).
+	ids map[int]string
+}
+
+func (s Spec) shared() bool { return s.Layout == "incl" || s.Layout == "excl" }
+
+// place is the workspace path of file protoPath of local module i.
+func (s Spec) place(i int, protoPath string) string {
+	switch s.Layout {
+	case "incl", "excl":
+		return "proto/" + protoPath
+	case "roots":
+		if strings.HasSuffix(protoPath, "/a.proto") {
+			return modDir(i) + "/ra/" + protoPath
+		}
+		return modDir(i) + "/rb/" + protoPath
+	}
+	return modDir(i) + "/" + protoPath
 }
 
 const missingPath = "nowhere/x.proto"
@@ -50,12 +76,18 @@ func (s Spec) key() string {
 	if s.V2 {
 		v = "v2"
 	}
+	if s.Layout != "" {
+		v += "-" + s.Layout
+	}
 	return fmt.Sprintf("%s/%s/%s/tc%d.%d/dup%d.%d/miss%d", s.Graph, strings.Join(ks, ""), v, s.TwoCommit, s.TCOrder, s.DupFrom, s.DupInto, s.MissingIn)
 }
 
 // modID is the expected OpaqueID of node i: the name when it has one, else the bucket ID (= module dir).
 func (s Spec) modID(i int) string {
 	if s.Kinds[i] == KLocal {
+		if s.shared() {
+			return s.ids[i] // "" when not resolved
+		}
 		return modDir(i)
 	}
 	return modName(i)
@@ -258,17 +290,37 @@ func build(ctx context.Context, s Spec) (*Built, error) {
 			extra = []string{missingPath}
 		}
 		for p, c := range moduleFiles(i, g.outs(i), "", extra) {
-			files[modDir(i)+"/"+p] = c
+			files[s.place(i, p)] = c
 		}
 		if s.DupInto == i {
-			files[modDir(i)+"/"+aPath(s.DupFrom)] = moduleFiles(s.DupFrom, nil, "", nil)[aPath(s.DupFrom)]
+			files[s.place(i, aPath(s.DupFrom))] = moduleFiles(s.DupFrom, nil, "", nil)[aPath(s.DupFrom)]
 		}
+	}
+	if (s.shared() && !s.V2) || (s.Layout == "roots" && (s.V2 || len(s.remotes()) > 0)) || ((s.shared() || s.Layout == "roots") && (s.DupFrom >= 0)) {
+		return nil, fmt.Errorf("layout %q is not defined for this spec", s.Layout)
 	}
 	if s.V2 {
 		var y strings.Builder
 		y.WriteString("version: v2\nmodules:\n")
 		for _, i := range locals {
-			fmt.Fprintf(&y, "  - path: %s\n", modDir(i))
+			switch s.Layout {
+			case "incl":
+				fmt.Fprintf(&y, "  - path: proto\n    includes:\n      - proto/p%d\n", i)
+			case "excl":
+				y.WriteString("  - path: proto\n")
+				first := true
+				for _, j := range locals {
+					if j != i {
+						if first {
+							y.WriteString("    excludes:\n")
+							first = false
+						}
+						fmt.Fprintf(&y, "      - proto/p%d\n", j)
+					}
+				}
+			default:
+				fmt.Fprintf(&y, "  - path: %s\n", modDir(i))
+			}
 			if s.Kinds[i] != KLocal {
 				fmt.Fprintf(&y, "    name: %s\n", modName(i))
 			}
@@ -302,9 +354,16 @@ func build(ctx context.Context, s Spec) (*Built, error) {
 		files["buf.work.yaml"] = w.String()
 		for li, i := range locals {
 			var y strings.Builder
-			y.WriteString("version: v1\n")
+			if s.Layout == "roots" {
+				y.WriteString("version: v1beta1\n")
+			} else {
+				y.WriteString("version: v1\n")
+			}
 			if s.Kinds[i] != KLocal {
 				fmt.Fprintf(&y, "name: %s\n", modName(i))
+			}
+			if s.Layout == "roots" {
+				y.WriteString("build:\n  roots:\n    - ra\n    - rb\n")
 			}
 			y.WriteString(depsYAML("", i))
 			files[modDir(i)+"/buf.yaml"] = y.String()
